@@ -377,6 +377,26 @@ func fireTimer(t *Timer) {
 	t.fire(now)
 }
 
+// FireTicker fires the first live periodic timer whose label contains match (explorer goroutine only:
+// inside a Choice's Fn). It reports whether one was found. Scenarios use it to place a tick at a chosen
+// stage instead of offering it at every decision (Bounds.Tickers).
+func FireTicker(match string) bool {
+	s.mu.Lock()
+	var t *Timer
+	for _, x := range s.timers {
+		if x.Period > 0 && !x.stopped && strings.Contains(x.Label, match) {
+			t = x
+			break
+		}
+	}
+	s.mu.Unlock()
+	if t == nil {
+		return false
+	}
+	fireTimer(t)
+	return true
+}
+
 // OnTick, when set, is told about every firing of a periodic virtual timer (ticker) before the
 // ticker's channel receives the tick. Harness worlds use it to place ticks in their event logs.
 var OnTick func(label string)
